@@ -758,7 +758,7 @@ impl<'a> Lexer<'a> {
             }
 
             c if c.is_numeric() => {
-                if c == '0' && self.eat_char(|c| c == 'x') {
+                if c == '0' && self.eat_char(|c| c == 'x' || c == 'X') {
                     let start_pos = self.cur;
                     while self.eat_char(|c| c.is_ascii_hexdigit()) {}
                     let end_pos = self.cur;
